@@ -29,8 +29,8 @@ def snapshot_one(x) -> Any:
         s.names = tuple(x.names)
         s.keys = [str(k) for k in x.keys]
         s.dtype = x.dtype
-        vals = x.values
-        s.cells = {k: _cells(vals[k]) for k in s.keys}
+        # read each column through ndarray indexing (honours strides; independent of ndpoly.values)
+        s.cells = {k: _cells(numpy.asarray(numpy.ndarray.__getitem__(x, k))) for k in s.keys}
         return s
     if isinstance(x, numpy.ndarray):
         s.kind = "array"
